@@ -300,9 +300,13 @@ func (parser *Parser) getIncludes(srcFile *SourceFile, includes []*Include, incP
 					loc:        inc.Node.Loc,
 				})
 			} else if iSrcFile := processedIncludes[absPath]; iSrcFile != nil {
-				iSrcFile.IncludedFrom = append(iSrcFile.IncludedFrom, &inc.Node.Loc)
+				// Only record the include if it does not close a cycle.
+				// IncludedFrom must remain acyclic, because it is followed
+				// recursively here and when reporting source locations.
 				if err := srcFile.checkIncludes(absPath, &inc.Node.Loc); err != nil {
 					errs = append(errs, err)
+				} else {
+					iSrcFile.IncludedFrom = append(iSrcFile.IncludedFrom, &inc.Node.Loc)
 				}
 			} else {
 				iSrcFile = &SourceFile{
